@@ -209,3 +209,27 @@ Theorem C09_gen_keep_arg_refuted :
   gen_decode_keep_g [DStruct [] true true] PBinary 40 (TyRef 0) (mkS [x00] r0) = Panic SOverflow.
 Proof. exact keep_arg_panics. Qed.
 Print Assumptions C09_gen_keep_arg_refuted.
+
+(* ---------------------------------------------------------------------------------------------------------------
+   Panic-site inventory of the TEMPLATES.  The Panic outcomes of Gen.v / GenKeep.v (Gen.r_field_begin_len, r_assert_no_pending;
+   GenKeep: Panic SOverflow) were picked by reading the templates; this is the regenerated counterpart: every unwrap / expect /
+   panic-family macro / index expression / integer arithmetic / with_capacity in the EMITTED TEXT (the string literals of
+   pilota-build/src/codegen/thrift/{mod,ty,decode_helper}.rs), as (file, generator function, kind, line text)
+   (tools/gen_template_inventory.py -> Generated/TemplateSites.v), with a disposition each (TemplateAcc.pdisp, a closed enumeration).
+   What the theorem pins: accounted = regenerated as lists; the emitted text contains NO unwrap / expect / panic macro / index
+   expression; every with_capacity is under the memory clause (C09_gen_alloc, F-09e, F-09h); exactly one arithmetic operation is a
+   modelled panic (`__pilota_remaining - 2`, F-13a).  Emitted operations the models treat as possibly panicking: that subtraction, and
+   the TLengthProtocol calls on the reader (PRuntimeLen rows: field_begin_len / field_end_len / field_stop_len and the skip / size
+   expressions added to __pilota_offset), whose compact versions assert on / unwrap the pending-bool state -- the runtime's own panic
+   sites are inventoried by the main family (PV.Generated.ReaderSites, C09_site_inventory).  Everything else the emitted decoders do
+   is a call into the runtime readers (C09_total) or safe control flow. *)
+From Coq Require Import String Bool.
+From PVGen Require Import Generated.TemplateSites TemplateAcc Proofs.TemplateAccP.
+Theorem C09_gen_panic_inventory :
+  map fst accounted_panic_sites = template_panic_sites /\
+  forallb (fun sr => Bool.eqb (String.eqb (kind_of (fst sr)) "alloc") (pdisp_eqb (snd sr) PAllocClause)) accounted_panic_sites = true /\
+  List.length (filter (fun sr => pdisp_eqb (snd sr) PModelPanic) accounted_panic_sites) = 1%nat /\
+  forallb (fun sr => negb (String.eqb (kind_of (fst sr)) "unwrap" || String.eqb (kind_of (fst sr)) "expect" ||
+                           String.eqb (kind_of (fst sr)) "panic_macro" || String.eqb (kind_of (fst sr)) "index")) accounted_panic_sites = true.
+Proof. exact template_panic_inventory. Qed.
+Print Assumptions C09_gen_panic_inventory.
